@@ -295,8 +295,16 @@ func newCaseWriter(dir, stream, header, footer, rule string, exhaustive bool, sh
 		return &caseWriter{dir: dir, stream: stream, header: header, footer: footer, shardSize: shardSize, info: si, dry: true}
 	}
 	meta.Streams = append(meta.Streams, si)
-	return &caseWriter{dir: dir, stream: stream, header: header, footer: footer, shardSize: shardSize, info: si}
+	cw := &caseWriter{dir: dir, stream: stream, header: header, footer: footer, shardSize: shardSize, info: si}
+	allWriters = append(allWriters, cw)
+	return cw
 }
+
+// every case writer of this run (closed by main when a generator dies, so that the cases written so far are still judged)
+var allWriters []*caseWriter
+
+// the last operator case handed to the code under test (reported when the generator itself dies afterwards)
+var lastCaseDesc = "(none yet)"
 func (cw *caseWriter) open() {
 	name := fmt.Sprintf("%s_%03d.v", cw.stream, len(cw.info.Shards))
 	cw.f, _ = os.Create(filepath.Join(cw.dir, name))
